@@ -46,6 +46,7 @@ func c13Case(c *lib.Ctx, idx uint64) {
 		MaxFields:      6,
 		UndefinedLocal: 15,
 		NoTimeZero:     true,
+		ZeroFieldDefs:  3,
 	}
 	if !rng.Chance(1, 4) {
 		o.Mesgs = lib.HostedMesgs(ft)
